@@ -64,3 +64,14 @@ package poll
 //@ ensures len(cs.conns[conn.group]) == old(len(cs.conns[conn.group])) ==> cs.len == old(cs.len)
 //@ ensures len(cs.conns[conn.group]) == old(len(cs.conns[conn.group])) - 1 ==> cs.len == old(cs.len) - 1
 
+
+// The worker loop: a connection taken from the disconnect channel is unregistered by identity (the entry is
+// removed only if it still is that very connection -- a connection that was usurped by a newer one with the
+// same id has already been closed and must not take the newer one down with it), and a connection taken
+// from the connect channel is the one registered. The registry operations and Process are abstracted here
+// (they are verified as units of their own); this unit proves only what is handed to them.
+//@ func (*PollWorker).Start
+//@ props C18
+//@ abstract-calls ^(add|rmv|Process)$
+//@ requires w != nil && w.metrics != nil && w.connections.conns != nil
+//@ site call rmv assert match
